@@ -50,7 +50,7 @@ type holePuncher struct {
 	filter AddrFilter
 }
 
-func newHolePuncher(h host.Host, ids identify.IDService, listenAddrs func() []ma.Multiaddr, tracer *tracer, filter AddrFilter) *holePuncher {
+func newHolePuncher(h host.Host, ids identify.IDService, listenAddrs func() []ma.Multiaddr, tracer *tracer, filter AddrFilter, directDialTimeout time.Duration) *holePuncher {
 	hp := &holePuncher{
 		host:        h,
 		ids:         ids,
@@ -58,6 +58,9 @@ func newHolePuncher(h host.Host, ids identify.IDService, listenAddrs func() []ma
 		tracer:      tracer,
 		filter:      filter,
 		listenAddrs: listenAddrs,
+		// set before the notifiee below is registered: a Connected notification
+		// starts a direct connect that reads it
+		directDialTimeout: directDialTimeout,
 	}
 	hp.ctx, hp.ctxCancel = context.WithCancel(context.Background())
 	h.Network().Notify((*netNotifiee)(hp))
